@@ -214,7 +214,15 @@ LongLens == {3, 7, 8, 15, 16, 17, 31, 32, 33, 64}
 C14LongDecls(r) ==
   {Enum(r, [i \in 1..Len(q) |-> Var(i, "unit", "implicit", 0, "dec", LongPool(L)[q[i]])]) :
      q \in {<<a, b>> : a, b \in 1..4} \cup {<<a, b, c>> : a, b, c \in 1..4}, L \in LongLens}
+\* raw identifiers next to ordinary ones: the name of `r#type` is `type` (the order must be the order of the NAMES, not of
+\* the spelling and not of "kind of identifier first")
+RawPool == <<[id |-> "r#break", name |-> <<98, 114, 101, 97, 107>>], [id |-> "default", name |-> <<100, 101, 102, 97, 117, 108, 116>>], [id |-> "r#type", name |-> <<116, 121, 112, 101>>], [id |-> "union", name |-> <<117, 110, 105, 111, 110>>], [id |-> "r#async", name |-> <<97, 115, 121, 110, 99>>], [id |-> "Zed", name |-> <<90, 101, 100>>]>>
+C14RawDecls(r) ==
+  {Enum(r, [i \in 1..Len(q) |-> [id |-> RawPool[q[i]].id, field |-> "unit", dk |-> "implicit", val |-> 0, sp |-> "dec", name |-> RawPool[q[i]].name]]) :
+     q \in {x \in {<<a, b>> : a, b \in 1..6} \cup {<<a, b, c>> : a, b, c \in 1..6} :
+               \A i, j \in 1..Len(x) : i # j => x[i] # x[j]}}       \* (identifiers are unique in an enum)
 C14All(r) ==
+  {Case("C14", d, SortedCfg(<<"name">>), "sorted, raw identifiers") : d \in {x \in C14RawDecls(r) : RustValid(x)}} \cup
   {Case("C14", d, SortedCfg(q), "sorted") : d \in C14Decls(r), q \in SortedReqs}
   \cup {Case("C14", d, SortedCfg(q), "sorted, long names with common prefixes") : d \in C14LongDecls(r), q \in {<<"name">>}}
   \cup {Case("C14", d, AllAuto({"as_str"}), "no sorted: any order") : d \in {x \in C14Decls(r) : Len(x.variants) = 3}}
